@@ -23,7 +23,7 @@ def heap_conf(name, nq, nt, rule, extra_trusted=()):
         "per_shard": 60,
         "run_header": "From Anytype Require Import Base FloatBits Value Heap Slice RunCommon RunHeap.\nLocal Open Scope Z_scope.\n",
         "run_check": "heap_check",
-        "run_show": "(fun c => heap_model (fst c))",
+        "run_show": "heap_show",
         "mismatch_is_input": True,
         "rule": rule,
         "trusted": HEAP_TRUSTED + list(extra_trusted),
@@ -35,7 +35,7 @@ def heap_slice_conf(name, nq, nt, rule):
     c = heap_conf(name, nq, nt, rule + "; every third case is a slice-level program (list-only operations on up to 6 lists of scalars with growth "
                   "histories) whose visible contents after every step are reproduced by the backing-array model under two growth policies (exact-fit and doubling)")
     c["run_check"] = "heap_or_slice_check"
-    c["run_show"] = "heap_or_slice_model"
+    c["run_show"] = "heap_or_slice_show"
     return c
 
 JSON_TRUSTED = [
